@@ -59,13 +59,16 @@ def find_impl(repo, c: Contract, ctx):
     return repo.find_method(ctx or cls, name)
 
 
-def run_function(eng: Engine, c: Contract, ctx, fi: FuncInfo, alias=None, lemma_node=None):
+def run_function(eng: Engine, c: Contract, ctx, fi: FuncInfo, alias=None, lemma_node=None, variant=None):
     """symbolically execute one body; returns (executor, env0, pre, state list)"""
     ex = Executor(eng, funcname=(f"{ctx}::{c.key}" if ctx and not c.key.startswith(ctx + ".") else c.key)
-                  + (f"[alias {alias[0]}={alias[1]}]" if alias else ""),
+                  + (f"[alias {alias[0]}={alias[1]}]" if alias else "")
+                  + (f"[variant {variant}]" if variant else ""),
                   module=fi.module if fi else None, cls=fi.cls if fi else None, contract=c)
     if c.kind == "lemma":
         ex.nodeprefix = "P"
+        if ex.funcname.startswith("P."):
+            ex.funcname = ex.funcname[2:]
     st = State()
     env = {}
     node = fi.node if fi is not None else lemma_node
@@ -79,6 +82,7 @@ def run_function(eng: Engine, c: Contract, ctx, fi: FuncInfo, alias=None, lemma_
         if first and fi is not None and fi.cls is not None and fi.kind in ("method", "property", "setter"):
             first = False
             env[a] = ex.fresh(st, TObj(ctx), "self")
+            preset_consts(ex, st, env[a], ctx)
             continue
         if first and fi is not None and fi.kind == "classmethod":
             first = False
@@ -86,6 +90,8 @@ def run_function(eng: Engine, c: Contract, ctx, fi: FuncInfo, alias=None, lemma_
             continue
         first = False
         ts = c.params.get(a)
+        if variant and a in variant:
+            ts = variant[a]
         if ts is None:
             an = annots.get(a)
             if isinstance(an, ast.Name) and an.id in ANNOT_TYPES:
@@ -97,6 +103,8 @@ def run_function(eng: Engine, c: Contract, ctx, fi: FuncInfo, alias=None, lemma_
             continue
         t = parse_type(ts)
         env[a] = ex.fresh(st, t, a)
+        if isinstance(t, TObj):
+            preset_consts(ex, st, env[a], t.cls)
         if isinstance(t, TStr):
             st.pc += LM.key_facts(env[a].t)
     for g, ts in c.ghost.items():
@@ -118,6 +126,26 @@ def run_function(eng: Engine, c: Contract, ctx, fi: FuncInfo, alias=None, lemma_
     return ex, env, pre
 
 
+def preset_consts(ex, st, ref, cls):
+    """fields that are per-class constants (type code, bits per element): literal values"""
+    ci = CLASSES.get(cls)
+    if ci is None or not ci.consts:
+        return
+    obj = st.heap[ref.loc[1]]
+    nf = dict(obj.fields)
+    for f, val in ci.consts.items():
+        if isinstance(val, str):
+            nf[f] = VStr.const(val)
+        elif isinstance(val, float):
+            from .values import VReal
+            nf[f] = VReal(z3.RealVal(repr(val)))
+        elif isinstance(val, bool):
+            nf[f] = VBool(val)
+        elif isinstance(val, int):
+            nf[f] = VInt(val)
+    st.heap[ref.loc[1]] = VStruct(obj.cls, nf)
+
+
 def exit_obligations(ex: Executor, c: Contract, env, pre):
     """ensures / raises / modifies obligations for every recorded exit"""
     mod_locs = modifies_locs(ex, c, env, pre)
@@ -127,9 +155,18 @@ def exit_obligations(ex: Executor, c: Contract, env, pre):
         n_paths += 1
         ex.cur_line = e.line
         tag = f"path{xi}@L{e.line}"
+        if e.kind == "return" and c.kind == "lemma":
+            ex.result = e.value
+            for name, text in c.ensures:
+                g = ex.spec_truth(st, text, env, f"{c.key}.ensures.{name}")
+                ex.oblige(st, f"{tag}.ensures.{name}", g, "ensures")
+            ex.result = None
+            continue
         if e.kind == "return":
             # 1. must not return normally when a raises-clause applies
             for exc, spec in c.raises.items():
+                if not spec.get("must", True):
+                    continue
                 o = pre.fork()
                 o.pc = st.pc
                 w = ex.spec_truth(o, spec["when"], env, f"{c.key}.raises.{exc}")
@@ -245,6 +282,10 @@ def background(eng):
         bg.append((("pow2",), f))
     for f in LM.rsum_axioms():
         bg.append((("rsum",), f))
+    from . import streams
+    bg += streams.real_axioms()
+    for f in streams.digit_axioms():
+        bg.append((("digit",), f))
     _BG = bg
     return bg
 
@@ -271,11 +312,14 @@ def decl_names(terms):
     return names
 
 
-def solve(eng, ob: Obligation, timeout_ms=30000, extra_axioms=()):
+def solve(eng, ob: Obligation, timeout_ms=30000, extra_axioms=(), seed=0):
     s = z3.Solver()
     s.set("timeout", timeout_ms)
     s.set("auto_config", False)
     s.set("smt.mbqi", False)
+    if seed:
+        s.set("smt.random_seed", seed)
+        s.set("sat.random_seed", seed)
     names = decl_names(list(ob.pc) + [ob.goal] + list(eng.axioms_extra))
     for keys, ax in background(eng):
         if any(k in names for k in keys):
@@ -285,8 +329,8 @@ def solve(eng, ob: Obligation, timeout_ms=30000, extra_axioms=()):
     for ax in extra_axioms:
         s.add(ax)
     for p in ob.pc:
-        s.add(p)
-    s.add(z3.Not(ob.goal))
+        s.add(z3.simplify(p))
+    s.add(z3.simplify(z3.Not(ob.goal)))
     t0 = time.time()
     r = s.check()
     dt = time.time() - t0
@@ -302,12 +346,19 @@ def solve(eng, ob: Obligation, timeout_ms=30000, extra_axioms=()):
 
 
 def verify_one(eng, key, ctx=None, timeout_ms=30000, alias=None):
+    variant = None
+    if isinstance(alias, dict):
+        variant, alias = alias, None
+    elif isinstance(alias, (tuple, list)) and alias and isinstance(alias[0], (tuple, list)):
+        variant, alias = dict(alias), None
     """verify contract `key` for receiver class ctx; returns FuncResult"""
     res = FuncResult(key, ctx)
     lemma_node = None
     if key in LEMMAS:
         lm = LEMMAS[key]
-        c = Contract(key, kind="lemma", **lm.contract_kw)
+        kw = dict(lm.contract_kw)
+        kw.pop("variants", None)
+        c = Contract(key, kind="lemma", **kw)
         lemma_node = ast.parse(lm.source).body[0]
         fi = None
     else:
@@ -321,7 +372,7 @@ def verify_one(eng, key, ctx=None, timeout_ms=30000, alias=None):
         res.trusted = True
         return res
     try:
-        ex, env, pre = run_function(eng, c, ctx, fi, alias=alias, lemma_node=lemma_node)
+        ex, env, pre = run_function(eng, c, ctx, fi, alias=alias, lemma_node=lemma_node, variant=variant)
         res.paths = exit_obligations(ex, c, env, pre)
     except Unsupported as e:
         res.unsupported = str(e)
@@ -341,7 +392,14 @@ def verify_one(eng, key, ctx=None, timeout_ms=30000, alias=None):
     if cs == "proved":
         res.vacuous = True
     for ob in ex.obligations:
-        status, dt, reason, model, _ = solve(eng, ob, timeout_ms)
+        # short attempts with different seeds first (a query that needs the whole budget is an unstable one)
+        status, dt, reason, model = "unknown", 0.0, "", None
+        for attempt, (tmo, seed) in enumerate(((min(timeout_ms, 5000), 0), (min(timeout_ms, 10000), 7),
+                                               (timeout_ms, 13))):
+            status, d, reason, model, _ = solve(eng, ob, tmo, seed=seed)
+            dt += d
+            if status != "unknown" or not ("timeout" in reason or "canceled" in reason):
+                break
         res.obligations.append({"name": ob.name, "status": status, "time": round(dt, 3), "line": ob.line,
                                 "kind": ob.kind, "backend": "z3-" + z3.get_version_string(),
                                 "reason": reason, "size": len(ob.pc)})
